@@ -65,6 +65,7 @@ func (o cacheOp) String() string {
 func suiteC20Hist(cfg Config, res *Result) {
 	defer c20Options(res)
 	defer c20EmptyFiles(res)
+	defer c20ReloadingLoader(res)
 	defer c20LoaderHistories(cfg, res)
 	defer twoBaseDirs(res, "cache", "c20-two-base-dirs")
 	defer c20ImportFresh(res)
